@@ -77,6 +77,9 @@ class NetWalk:
         self.sidx = {}                 # id(base ndarray) -> index
         self.sites = []                # site objects (token = index)
         self.steps, self.fps, self.ops, self.oracle = [], [], [], []
+        self.changed, self.targets = [], []   # per step: [kind, index] of every registered object that changed / in-place tensor target
+        self.setS_log = set()                  # (id(MPS), id(array)): arrays handed to set_SL / set_SR (documented: no copy)
+        self.caller_S = set()                  # ids of the arrays created by the caller (mk_s)
         self.imported_legs = set()
         self.malformed = 0
 
@@ -172,15 +175,17 @@ class NetWalk:
         """containers through which an in-place method on `a` writes (the total charge array is never written)"""
         return {id(a.legs), id(a._labels), id(a._data), id(self.W.base_of(a._qdata))} | {id(self.W.base_of(t)) for t in a._data}
 
-    def end(self, name, step, res, allowed):
+    def end(self, name, step, res, allowed, target=None):
         """`allowed(kind, index)` -> may this object change in this step? (decided from the documented semantics and the
-        REAL object identities before the step)"""
+        REAL object identities before the step); target: index of the tensor a tensor-level in-place method acts on"""
         self.scan()
         self.steps.append(step)
         self.ops.append(name)
         self.fps.append(self.fingerprint(res))
         now = self.snapshot()
         k = len(self.ops) - 1
+        self.changed.append([[kind, i] for kind in ('a', 'p', 'o') for i, old in enumerate(self.before[kind]) if now[kind][i] != old])
+        self.targets.append(target)
         for kind in ('a', 'tl', 's', 'sl', 'vl', 'p', 'o'):
             for i, old in enumerate(self.before[kind]):
                 if now[kind][i] != old and not allowed(kind, i):
@@ -290,6 +295,7 @@ class NetWalk:
         vals = vals or [self.rng.randint(1, 5) for _ in range(n)]
         s = np.array(vals, dtype=np.float64)
         k = self.reg_s(s)
+        self.caller_S.add(id(s))
         self.end('mk_s', dict(op='mk_s', vals=[int(v) for v in vals]), dict(none=True), lambda kind, i: False)
         return k
 
@@ -447,9 +453,9 @@ class NetWalk:
                     sane=sane)
         self.end('mps_init' + ('.malformed' if mal else ''), step, res, lambda k, i: False)
         if err is None:
-            self.check_independent('mps_init', r, Bs)
+            self.check_independent('mps_init', r, Bs, Ss)
 
-    def check_independent(self, name, p, sources):
+    def check_independent(self, name, p, sources, svs=None):
         """the constructor copies: no stored tensor may share a writable container with a source tensor, no singular
         value array may be a caller's array"""
         src = set()
@@ -460,6 +466,21 @@ class NetWalk:
                 self.oracle.append((f'c03.ext.{name}.stored-tensor-shares-state',
                                     f'step {len(self.ops) - 1}: stored tensor {j} of the new MPS shares a writable container with an argument'))
                 break
+        given = {id(self.W.base_of(x)) for x in (svs or []) if x is not None}
+        for j, sv in enumerate(p._S):
+            if sv is not None and id(self.W.base_of(sv)) in given:
+                self.oracle.append((f'c03.ext.{name}.stored-singular-values-are-the-argument',
+                                    f'step {len(self.ops) - 1}: entry {j} of _S is (a view of) an array of the SVs argument: the constructor must copy'))
+                break
+
+    def check_copy(self, name, r):
+        """`copy=True`: "always return a copy" — the result may not be, or share a writable container with, a registered tensor"""
+        mine = self.hard_ids(r)
+        for j, a in enumerate(self.A):
+            if a is r or (self.hard_ids(a) & mine):
+                self.oracle.append((f'c03.ext.{name}.copy-shares-state',
+                                    f'step {len(self.ops)}: {name}(copy=True) returned a tensor that is / shares a writable container with tensor #{j}'))
+                return
 
     def transposed_of(self, i):
         a = self.A[i]
@@ -514,7 +535,7 @@ class NetWalk:
             res = err
         self.end('mps_copy', dict(op='mps_copy', p=k, sane=sane), res, lambda kind, i: False)
         if err is None:
-            self.check_independent('mps_copy', r, list(p._B))
+            self.check_independent('mps_copy', r, list(p._B), list(p._S))
 
     def op_get_B(self):
         k = self.pick_p()
@@ -537,6 +558,8 @@ class NetWalk:
         self.begin()
         r, err = self.real(lambda: p.get_B(i, form=form, copy=copy, label_p='1' if label_p else None))
         if err is None:
+            if copy:
+                self.check_copy('get_B', r)
             res = dict(a=self.reg_a(r))
         else:
             res = err
@@ -602,6 +625,8 @@ class NetWalk:
         self.begin()
         _, err = self.real(lambda: p.set_SL(i, S) if left else p.set_SR(i, S))
         res = err or dict(none=True)
+        if err is None and S is not None:
+            self.setS_log.add((id(p), id(S)))
         self.end('set_S', dict(op='set_S', p=k, i=i, left=left, s=s), res, lambda kind, x: kind == 'p' and x == k)
 
     def op_mps_enlarge(self):
@@ -672,7 +697,10 @@ class NetWalk:
             raise Skip()
         vals = [self.rng.randint(1, 7) for _ in range(arr.size)]
         self.begin()
-        hp = {i for i, ss in enumerate(self.before_pS) if id(arr) in ss}
+        # only an MPS that was GIVEN this very array through set_SL / set_SR (documented: no copy) may change with it
+        # (an array made by a constructor belongs to the MPS holding it: get_SL hands it out)
+        hp = {i for i, ss in enumerate(self.before_pS)
+              if id(arr) in ss and (id(arr) not in self.caller_S or (id(self.P[i]), id(arr)) in self.setS_log)}
         arr[...] = np.array(vals, dtype=arr.dtype).reshape(arr.shape)
         self.end('edit_s', dict(op='edit_s', s=s, vals=vals), dict(none=True),
                  lambda kind, x: (kind == 's' and x == s) or (kind == 'p' and x in hp))
@@ -712,7 +740,7 @@ class NetWalk:
 
         def allowed(k_, x):
             return (k_ == 'a' and x in sharing) or (k_ == 'p' and x in hp) or (k_ == 'o' and x in ho)
-        self.end('arr.' + kind, dict(op='arr', calls=calls), dict(none=True), allowed)
+        self.end('arr.' + kind, dict(op='arr', calls=calls), dict(none=True), allowed, target=i)
 
     # ---------------------------------------------------------------- steps: MPO
     def op_mpo_init(self):
@@ -777,6 +805,17 @@ class NetWalk:
             res = err
         step = dict(op='mpo_init', sites=[self.site_tok(s) for s in sites], Ws=tl, bc=BC.get(bc, 3), IdL=IdLj, IdR=IdRj, sane=sane)
         self.end('mpo_init' + ('.malformed' if mal else ''), step, res, lambda k, i: False)
+        if err is None:
+            src = set()
+            for w in Ws:
+                src |= self.hard_ids(w)
+            for j, w in enumerate(r._W):
+                if self.hard_ids(w) & src or any(w is x for x in Ws):
+                    self.oracle.append(('c03.ext.mpo_init.stored-tensor-shares-state',
+                                        f'step {len(self.ops) - 1}: stored tensor {j} of the new MPO shares a writable container with an argument'))
+                    break
+            if r.IdL is IdL or r.IdR is IdR:
+                self.oracle.append(('c03.ext.mpo_init.keeps-caller-Id-list', f'step {len(self.ops) - 1}: the MPO holds the list object given as IdL / IdR'))
 
     def pick_o(self):
         if not self.O:
@@ -802,6 +841,8 @@ class NetWalk:
         copy = self.rng.random() < 0.4
         self.begin()
         r, err = self.real(lambda: H.get_W(i, copy=copy))
+        if err is None and copy:
+            self.check_copy('get_W', r)
         res = dict(a=self.reg_a(r)) if err is None else err
         self.end('get_W', dict(op='get_W', H=k, i=i, copy=copy), res, lambda kind, j: False)
 
@@ -927,6 +968,7 @@ class NetWalk:
             except Skip:
                 continue
         return dict(steps=self.steps, fps=self.fps, ops=self.ops, oracle=[list(x) for x in self.oracle], malformed=self.malformed,
+                    changed=self.changed, targets=self.targets,
                     nobj=len(self.A), nmps=len(self.P), nmpo=len(self.O))
 
 
@@ -992,6 +1034,22 @@ def canon_step(st):
     return out
 
 
+def documented_sharing(st, tgt):
+    """from a model fingerprint: indices of the tensors that share a writable container (legs list, _labels, _data list,
+    _qdata, a block — not the total charge) with tensor #tgt, and of the MPS / MPO storing one of them"""
+    arrs = st['arrs']
+    if tgt >= len(arrs):
+        return None
+
+    def hard(a):
+        return {('l', a['legs_list']), ('b', a['labels']), ('l', a['data']), ('b', a['qdata'])} | {('b', b) for b in a['blocks']}
+    th = hard(arrs[tgt])
+    ta = {i for i, a in enumerate(arrs) if hard(a) & th}
+    ids = {arrs[i]['id'] for i in ta}
+    return dict(a=ta, p={i for i, p in enumerate(st['mps']) if ids & set(p['B']['items'])},
+                o={i for i, H in enumerate(st['mpo']) if ids & set(H['W']['items'])})
+
+
 def first_diff(a, b, path=''):
     if type(a) != type(b):
         return f'{path}: {a!r} vs {b!r}'[:300]
@@ -1008,6 +1066,17 @@ def first_diff(a, b, path=''):
     return f'{path}: {a!r} vs {b!r}'[:300]
 
 
+def run_driver_parallel(lines, nproc):
+    """the interpreted driver handles ~15 walks per second: several driver processes side by side"""
+    from concurrent.futures import ThreadPoolExecutor
+    from vlib import core
+    size = max(20, min(120, len(lines) // nproc + 1))
+    chunks = [lines[i:i + size] for i in range(0, len(lines), size)]
+    with ThreadPoolExecutor(max_workers=nproc) as ex:
+        outs = list(ex.map(lambda ch: core.run_driver('C03', ch), chunks))
+    return [o for ch in outs for o in ch]
+
+
 def evaluate(ctx, cases, use_model=True, configs=('cy', 'py'), nproc=None):
     from vlib import core, twoconf
     res = core.Result()
@@ -1021,7 +1090,7 @@ def evaluate(ctx, cases, use_model=True, configs=('cy', 'py'), nproc=None):
                 if 'crash' not in r and r.get('steps'):
                     lines.append(dict(net=True, cy=(cfg == 'cy'), steps=r['steps']))
                     where.append((cfg, i))
-    models = dict(zip(where, core.run_driver('C03', lines))) if lines else {}
+    models = dict(zip(where, run_driver_parallel(lines, 6 if ctx.quick else 12))) if lines else {}
     for i, case in enumerate(cases):
         ref = runs[configs[0]]['results'][i]
         ops = ref.get('ops', [])
@@ -1051,6 +1120,23 @@ def evaluate(ctx, cases, use_model=True, configs=('cy', 'py'), nproc=None):
             if m is None or 'error' in m or 'steps' not in m:
                 res.fail('correspondence', 'c03.ext.model-error', f'[{cfg}] {str(m)[:600]}', case)
                 continue
+            # tensor-level in-place methods judged with the DOCUMENTED sharing (the model's net before the step): a tensor /
+            # MPS / MPO that changed although the model shares no writable container between it and the target was reached
+            # through an undocumented alias (the worker's own oracle uses the real identities and would excuse it)
+            for k, tgt in enumerate(r.get('targets', [])):
+                if tgt is None or k == 0 or k - 1 >= len(m['steps']):
+                    continue
+                doc = documented_sharing(m['steps'][k - 1], tgt)
+                for kind, idx in r['changed'][k]:
+                    if doc is not None and idx not in doc[kind]:
+                        what = {'a': 'tensor', 'p': 'MPS', 'o': 'MPO'}[kind]
+                        res.fail('property', f"c03.ext.{r['ops'][k]}.changed-{what}-without-documented-sharing",
+                                 f"[{cfg}] step {k}: in-place {r['ops'][k]} on tensor #{tgt} changed {what} #{idx}; according to the "
+                                 'model (documented copies / views / stored tensors) they share no writable container', dict(case, upto=k))
+                        bad = True
+                        break
+            if bad:
+                continue
             for k, (fr, fm) in enumerate(zip(r['fps'], m['steps'])):
                 cr, cm = canon_step(fr), canon_step(fm)
                 for a_r, a_m in zip(cr['arrs'], cm['arrs']):
@@ -1065,10 +1151,20 @@ def evaluate(ctx, cases, use_model=True, configs=('cy', 'py'), nproc=None):
     return res
 
 
-def run_ext(ctx, n_cases):
+def run_ext(ctx, n_cases, batch=400):
+    """batches keep the fingerprints (≈100 kB per walk and configuration) out of memory"""
+    from vlib import core
     rng = ctx.sub_rng('ext')
     cases = [gen_case(rng, i) for i in range(n_cases)]
-    return evaluate(ctx, cases)
+    res = core.Result()
+    malformed = 0
+    for k in range(0, len(cases), batch):
+        r = evaluate(ctx, cases[k:k + batch])
+        malformed += r.extra.get('ext_malformed_calls', 0)
+        res.merge(r)
+    res.extra['ext_malformed_calls'] = malformed
+    res.extra['ext_walks'] = len(cases)
+    return res
 
 
 def search_ext(ctx, n_cases):
